@@ -15,7 +15,8 @@ Inductive case :=
 | CPure (partSize total parts code autoSize : Z)
 | CUp (auto : bool) (cfg declared size threads : Z)
       (status obsPs : Z) (obsBig : bool)          (* 0 ok, 1-3 checkPartSize, 4 too many parts *)
-      (log : list (Z * Z * Z * Z))                (* part, len, file_total_parts (0 for small), answer *)
+      (log : list (Z * Z * Z * Z * Z))            (* part, len, file_total_parts (0 for small), answer,
+                                                     late: the answer was returned after a request with a known total had arrived *)
       (kind parts : Z).                           (* 0 error, 1 InputFile, 2 InputFileBig *)
 
 Definition resp_of (z : Z) : resp := if z =? 0 then RTrue else if z =? 1 then RFalse else if z =? 2 then RFlood else RErr.
@@ -68,11 +69,12 @@ Definition fuel_of (threads : Z) : nat := Z.to_nat (8 * threads + 16).
    so a value older than both schedules' current one is tolerated once per part: only for a
    part other than the last one and only if none of its earlier requests was logged after the
    last part's (a retry is built after the previous answer, hence after the count was known). *)
-Fixpoint replay (p threads tp lastId : Z) (log : list (Z * Z * Z * Z)) (lastSeen : bool) (after : list Z)
+Fixpoint replay (p threads tp lastId : Z) (log : list (Z * Z * Z * Z * Z)) (lastSeen : bool) (after : list Z)
+                (prevLate : list Z)   (* parts whose latest answer was returned after the count was known *)
                 (sl se : zstate) : bool * zstate * zstate :=
   match log with
   | [] => (true, sl, se)
-  | (id, len, tot, r) :: rest =>
+  | (id, len, tot, r, late) :: rest =>
       if b_failed sl then (true, sl, se) (* requests already in flight when the group was cancelled *)
       else
       let se0 := saturate (fuel_of threads) p threads se in
@@ -80,10 +82,14 @@ Fixpoint replay (p threads tp lastId : Z) (log : list (Z * Z * Z * Z)) (lastSeen
       | Some (sl1, il), Some (se1, ie) =>
           let okLen := match nth_error (b_hold sl1) il with Some (_, l) => l =? len | None => false end in
           let stale := negb (id =? lastId) && negb (existsb (Z.eqb id) after) && (tot =? tp) in
-          let okTot := (tot =? b_total sl1) || (tot =? b_total se1) || stale in
+          (* a retry is built after the previous answer returned: if the count was known by then (both
+             schedules agree it is never forgotten) the retry carries it *)
+          let mustKnow := existsb (Z.eqb id) prevLate in
+          let okTot := ((tot =? b_total sl1) || (tot =? b_total se1) || stale) && (negb mustKnow || negb (tot =? -1)) in
           if okLen && okTot then
             replay p threads tp lastId rest (lastSeen || (id =? lastId))
                    (if lastSeen || (id =? lastId) then id :: after else after)
+                   (if late =? 1 then id :: prevLate else filter (fun x => negb (x =? id)) prevLate)
                    (b_step idz p threads sl1 (ESend il (resp_of r)))
                    (b_step idz p threads se1 (ESend ie (resp_of r)))
           else (false, sl1, se1)
@@ -91,22 +97,22 @@ Fixpoint replay (p threads tp lastId : Z) (log : list (Z * Z * Z * Z)) (lastSeen
       end
   end.
 
-Definition check_big (ps threads tp size : Z) (log : list (Z * Z * Z * Z)) (kind parts : Z) : bool :=
+Definition check_big (ps threads tp size : Z) (log : list (Z * Z * Z * Z * Z)) (kind parts : Z) : bool :=
   let cs := chunk_lens ps size in
   let s0 := b_init cs tp in
-  let '(ok, sl, se) := replay ps threads tp (zlen cs - 1) log false [] s0 s0 in
+  let '(ok, sl, se) := replay ps threads tp (zlen cs - 1) log false [] [] s0 s0 in
   ok &&
   (if b_failed sl then kind =? 0
    else let sf := saturate (fuel_of threads) ps threads sl in
         b_terminal sf && (kind =? 2) && (parts =? b_sent sf) && (parts =? zlen cs)).
 
-Definition check_small (ps size : Z) (log : list (Z * Z * Z * Z)) (kind parts : Z) : bool :=
+Definition check_small (ps size : Z) (log : list (Z * Z * Z * Z * Z)) (kind parts : Z) : bool :=
   let cs := chunk_lens ps size in
-  let env := map (fun e => resp_of (snd e)) log in
+  let env := map (fun e => resp_of (snd (fst e))) log in
   let '(l, n, o) := small_loop cs 0 env in
   list_eqb (fun a b => z3_eqb a b)
            (map (fun q => (sq_part q, sq_data q, resp_code (sq_resp q))) l)
-           (map (fun e => let '(id, len, _, r) := e in (id, len, r)) log) &&
+           (map (fun e => let '(id, len, _, r, _) := e in (id, len, r)) log) &&
   match o with
   | Done => (kind =? 1) && (parts =? n)
   | Failed => kind =? 0
